@@ -68,6 +68,7 @@ func collConfig(r *rng, mode string) (Config, genOpts) {
 		}
 		cfg.NoSync = r.chance(1, 2)
 		cfg.CompactionSync = r.chance(1, 3)
+		cfg.SyncAfterBytes = []int{0, 0, -1, 4096}[r.intn(4)]
 		if r.chance(1, 2) {
 			cfg.IndexMin = 1
 			cfg.IndexMax = []int{-1, 16, 40, 100000}[r.intn(4)]
